@@ -126,4 +126,54 @@ theorem stepOf_spec (isAnd : Bool) (v : V) :
       · simp [ha]
       · simp [ha]
 
+/-! ### the per-argument verdict of the shared evaluator model (`Evaluator.argVerdict`) under the truth function
+    of logical.py is the verdict of `Model.C10.stepOf` — for scalars AND for arrays (range arguments) -/
+
+theorem argItems_eq_flat (v : V) : argItems v = flat v := by cases v <;> rfl
+
+theorem isEmptyValue_item (x : S) : isEmptyValue (.s x) = isBlankItem x := by
+  cases x with
+  | text t => cases t <;> rfl
+  | _ => rfl
+
+theorem firstErrorItem_truthOf (xs : List S) :
+    firstErrorItem truthOf xs = (firstError xs).map S.err := by
+  induction xs with
+  | nil => rfl
+  | cons x rest ih => cases x <;> simp [firstErrorItem, firstError, truthOf, ih]
+
+theorem firstDeciding_truthOf (isAnd : Bool) (xs : List S) (he : firstError xs = none) :
+    firstDeciding truthOf isAnd xs = if decides isAnd xs then some (!isAnd) else none := by
+  induction xs with
+  | nil => simp [firstDeciding, decides]
+  | cons x rest ih =>
+    cases x with
+    | err c => simp [firstError] at he
+    | _ =>
+      all_goals
+        have he' : firstError rest = none := by simpa [firstError] using he
+        simp only [firstDeciding, decides, isEmptyValue_item, truthOf, ih he']
+        split
+        · rfl
+        · split
+          · rfl
+          · rename_i hq
+            cases isAnd <;> simp_all
+
+/-- `Model.C10.Step` (the verdict of logical.py's loop body) as a verdict of the evaluator model -/
+def stepVerdict (isAnd : Bool) : Step → Verdict
+  | .error c => .error (.s (.err c))
+  | .decided => .decided (!isAnd)
+  | .continue => .neutral
+
+theorem itemsVerdict_truthOf (isAnd : Bool) (v : V) :
+    itemsVerdict truthOf isAnd (argItems v) = stepVerdict isAnd (stepOf isAnd v) := by
+  unfold itemsVerdict stepOf
+  rw [argItems_eq_flat, firstErrorItem_truthOf]
+  cases he : firstError (flat v) with
+  | some c => rfl
+  | none =>
+    simp only [Option.map_none, firstDeciding_truthOf isAnd _ he]
+    cases decides isAnd (flat v) <;> rfl
+
 end XlVerif.Lemmas.C10
